@@ -21,6 +21,7 @@ pub static PROP: Prop = Prop {
     rule: "a generated quotient-free lax diagram and a lax functor from a functor table (object images of length 0..3; operation images arbitrary small diagrams, 30% of the functors with label-consistent pending pairs inside the images); natively computed image, quotiented, compared up to isomorphism with the strict-path image and with substitution on the plain model; witness checked against its definition; 15% of the cases carry a pending pair in the input for the refusal clause; non-trivial = >= 1 hyperedge and some object image of length != 1; distinct = hash of (diagram, functor table, pending pairs)",
     assumptions: &["operation images with label-conflicting pending pairs are a caller error (documented 'may panic') and are not generated"],
     fixed: None,
+    scale: None,
 };
 
 fn check(t: &mut Tape, ctx: &mut Ctx) -> CheckResult {
